@@ -17,6 +17,12 @@ Judge:
                   unifiable over rational trees (Python union-find reference, not a theorem),
                   T1 == T2 afterwards; the cyclic result is not printed.
   \\=/2 never binds anything: when it fails/succeeds r(T1,T2,Vars) is a variant of the input.
+
+Head configurations (`head`, compiled get_*/unify_* instructions): the pair is unified by calling a
+clause whose head carries t2.  Family `tailshare` (always with head configurations) and the stored
+cases corpus/C10/*.json aim at WRITE mode: a variable meets a compound of the head that contains
+that variable again (`h(V) ` against head `h([a|V])`), so the occurs check has to fail while the
+head structure is being written (finding C10-2).
 """
 import re
 import struct
@@ -384,6 +390,57 @@ def head_string_meets_compound(t1, t2):
     return False
 
 
+def head_write_mode_possible(t1, t2):
+    """can unifying t1 with the clause-head term t2 ever bind a variable to a compound sub-term
+    of the head (the compiled head then BUILDS that sub-term: get_structure / get_list /
+    get_partial_string switch to write mode)?  Union-find walk over all argument pairs that does
+    not stop at clashes and does not depend on the outcome observed on the implementation.  Used
+    only to give finding C10-2 its narrow signature."""
+    parent, node = {}, {}
+
+    def mk(t, origin):
+        if t[0] == 'v':
+            key = ('v', t[1])
+            if key not in node:
+                node[key] = (t, [], None)
+                parent[key] = key
+            return key
+        kids = [mk(a, origin) for a in t[2]] if t[0] == 's' else []
+        key = ('n', len(node))
+        node[key] = (t, kids, origin)
+        parent[key] = key
+        return key
+
+    def find(k):
+        while parent[k] != k:
+            parent[k] = parent[parent[k]]
+            k = parent[k]
+        return k
+
+    st = [(mk(t1, 1), mk(t2, 2))]
+    while st:
+        a, b = st.pop()
+        a, b = find(a), find(b)
+        if a == b:
+            continue
+        ta, ka, oa = node[a]
+        tb, kb, ob = node[b]
+        if ta[0] == 'v' or tb[0] == 'v':
+            if ta[0] != 'v':
+                a, b, ta, tb, oa, ob = b, a, tb, ta, ob, oa
+            if tb[0] == 's' and ob == 2:
+                return True
+            parent[a] = b
+        elif ta[0] == 's' and tb[0] == 's' and ta[1] == tb[1] and len(ka) == len(kb):
+            # keep the head node as representative, so that a variable that meets this class later
+            # is seen to meet a head compound
+            if oa == 2 and ob != 2:
+                a, b, ka, kb = b, a, kb, ka
+            parent[a] = b
+            st.extend(zip(ka, kb))
+    return False
+
+
 # ------------------------------------------------------------------ generators
 
 VARS = ["V0", "V1", "V2", "V3", "V4", "V5"]
@@ -562,6 +619,60 @@ def mutate(rng, t, nv, p):
     return t
 
 
+def gen_tailshare(rng, nv):
+    """pairs for compiled head unification in WRITE mode: t2 (the clause head) has a compound S
+    -- a partial string / partial list whose tail is the variable V, a list with V as an element,
+    a structure with V as an argument -- at a place where t1 has a variable W; W is V itself or
+    aliased to V (cyclic binding: the occurs check has to fail while S is being written), sometimes
+    another variable (finite unifier: near miss)."""
+    V = gen_var(rng, nv)
+    n = rng.choice([1, 1, 2, 3])
+    r = rng.random()
+    if r < 0.3:
+        S = ('str', "".join(rng.choice("abc") for _ in range(n)), V)
+    elif r < 0.55:
+        S = ('lst', [gen_term(rng, 1, nv) for _ in range(n)], V)
+    elif r < 0.7:
+        el = [gen_term(rng, 1, nv) for _ in range(n)]
+        el.insert(rng.randrange(len(el) + 1), V if rng.random() < 0.6 else ('s', 'g', [V]))
+        S = ('lst', el, rng.choice([None, None, V, gen_var(rng, nv)]))
+    else:
+        f, k = rng.choice(FUNCTORS)
+        a = [gen_term(rng, 1, nv) for _ in range(k)]
+        a[rng.randrange(k)] = V if rng.random() < 0.6 else rng.choice(
+            [('s', 'g', [V]), ('lst', [('a', 'a')], V), ('str', "ab", V)])
+        S = ('s', f, a)
+    r2 = rng.random()
+    W = V if r2 < 0.8 else gen_var(rng, nv)
+    A = gen_var(rng, nv)
+    shape = rng.randrange(7)
+    if shape == 0:
+        t1, t2 = W, S
+    elif shape == 1:
+        f, k = rng.choice(FUNCTORS)
+        a = [gen_term(rng, 1, nv) for _ in range(k)]
+        b = [mutate(rng, x, nv, 0.1) for x in a]
+        i = rng.randrange(k)
+        a[i], b[i] = W, S
+        t1, t2 = ('s', f, a), ('s', f, b)
+    elif shape == 2:
+        # alias first, then the write: f(A, A) against head f(V, S)
+        t1, t2 = ('s', 'f', [A, A]), ('s', 'f', [V, S])
+    elif shape == 3:
+        # write first (no cycle yet), then the alias in read mode: f(A, A) against head f(S, V)
+        t1, t2 = ('s', 'f', [A, A]), ('s', 'f', [S, V])
+    elif shape == 4:
+        t1, t2 = ('s', 'f', [('s', 'g', [W])]), ('s', 'f', [('s', 'g', [S])])
+    elif shape == 5:
+        t1, t2 = ('lst', [W], None), ('lst', [S], None)
+    else:
+        # two steps: W is bound to a head structure that holds A, A is then bound to S
+        t1, t2 = ('s', 'f', [W, A]), ('s', 'f', [('s', 'g', [A]), rng.choice([S, ('s', 'h', [W, V])])])
+    if rng.random() < 0.15:
+        t1, t2 = t2, t1
+    return t1, t2
+
+
 def gen_pair(rng):
     """returns (t1, t2, shares, family)"""
     r = rng.random()
@@ -622,6 +733,9 @@ def gen_pair(rng):
                 t1 = ('s', 'g', [t1])
                 t2 = ('s', 'g', [t2])
         return t1, t2, shares, "long"
+    if r < 0.66:
+        t1, t2 = gen_tailshare(rng, nv)
+        return t1, t2, shares, "tailshare"
     depth = rng.choice([1, 2, 2, 3, 3, 4])
     t1 = gen_term(rng, depth, nv)
     t2 = mutate(rng, t1, nv, rng.choice([0.1, 0.2, 0.35, 0.5]))
@@ -765,7 +879,12 @@ def sanitize(t, shares):
     return t
 
 
-def make_case(cid, t1, t2, shares, family, hide, head=False):
+def make_case(cid, t1, t2, shares, family, hide, head=False, hshape="list"):
+    """hshape: how the clause of the head configurations receives the variables: "list" --
+    c10h([V0,..,V5,_,_], t2), "struct" -- c10h(v(V0,..,V5,_,_), t2).  The compiler emits the head's
+    sub-terms level by level, so with "list" the nested cells of the variable list are interleaved
+    with (and, for shallow t2, come after) the instructions of t2, ending in a read-mode
+    unify_constant([]); with "struct" the instructions of t2 are the last ones before proceed."""
     rd = Render(shares)
     p1, p2 = rd.pl(t1), rd.pl(t2)
     allv = VARS + BYS
@@ -777,7 +896,7 @@ def make_case(cid, t1, t2, shares, family, hide, head=False):
         ex = cons(('v', v), ex)
     head = head and not has_rat(e2)
     configs = CONFIGS + (HEAD_CONFIGS if head else [])
-    hgoal = "c10h_%s([%s], T1)" % (cid, ",".join(allv))
+    hgoal = ("c10h_%s(v(%s), T1)" if hshape == "struct" else "c10h_%s([%s], T1)") % (cid, ",".join(allv))
     body = "".join(config_text(k, pred, flag,
                                not (hide and flag == "false" and pred in ("eq", "head")) and not (hide == "all" and pred != "neq"),
                                hgoal if pred == "head" else None)
@@ -788,11 +907,12 @@ def make_case(cid, t1, t2, shares, family, hide, head=False):
     if head:
         # compiled head unification: the clause head carries t2 and the variable list, so that the
         # clause's variables are identified with the query's before t2 meets T1
-        impl.append("L\t%s_ld\tuser\tc10h_%s([%s,_,_], %s)." % (cid, cid, ",".join(VARS), plain_pl(e2)))
+        impl.append(("L\t%s_ld\tuser\tc10h_%s(v(%s,_,_), %s)." if hshape == "struct" else
+                     "L\t%s_ld\tuser\tc10h_%s([%s,_,_], %s).") % (cid, cid, ",".join(VARS), plain_pl(e2)))
     impl.append("Q\t%s\t2\t%s" % (cid, q))
     model = ["unify\t%s\t%s\t%s\t%s" % (cid, canon(e1), canon(e2), canon(ex))]
     return {"id": cid, "family": family, "t1": canon(e1), "t2": canon(e2), "extra": canon(ex),
-            "prolog": "%sT1 = %s, T2 = %s" % (pre, p1, p2), "hide": hide,
+            "prolog": "%sT1 = %s, T2 = %s" % (pre, p1, p2), "hide": hide, "hshape": hshape if head else None,
             "configs": [list(x) for x in configs], "impl": impl, "model": model}
 
 
@@ -839,6 +959,10 @@ def parse_impl(res, nconf):
         r = ('bad', "no usable result for configuration %d: %s" % (k, t))
         if t is None:
             pass
+        elif t == nil():
+            # findall found NO solution of ( Goal -> ..., Res = y(..) ; Res = n(R) ): neither branch
+            # of an if-then-else whose else branch cannot fail
+            r = ('nosol', None)
         elif t[0] == 's' and t[1] == 'err' and len(t[2]) == 1:
             r = ('err', t[2][0])
         elif t[0] == 's' and t[1] == '.' and t[2][1] == nil():
@@ -906,7 +1030,11 @@ def judge(c, impl, model):
             # arguments last), so "cyclic binding first" / "clash first" may swap
             exp = "error-or-fail"
         prob = None
-        if exp == "error-or-fail":
+        if res[0] == 'nosol':
+            prob = ("no-solution", "the goal ( G -> Res = y(..) ; Res = n(R) ) had no solution at all although its "
+                                   "else branch cannot fail: G (expected outcome: %s) succeeded and left a failure "
+                                   "pending that fired after the commit" % exp)
+        elif exp == "error-or-fail":
             if not ((res[0] == 'err' and res[1] == REP_ERR) or (res[0] == 'n' and variant(res[2], orig))):
                 prob = ("success", "expected failure or representation_error(term), got %s" % (res[:2],))
         elif res[0] == 'bad':
@@ -943,6 +1071,11 @@ def judge(c, impl, model):
                     head_string_meets_compound(orig[2][0], orig[2][1]):
                 # finding C10-1: get_partial_string accepts any compound as a list cell
                 sig = {"family": "unify", "pred": "head", "defect": "head-string-meets-compound"}
+            elif pred == "head" and flag in ("true", "error") and mo == "cyclic" and \
+                    prob[0] in ("no-solution", "success", "not-identical", "binding") and \
+                    head_write_mode_possible(orig[2][0], orig[2][1]):
+                # finding C10-2: unify_value / unify_local_value in write mode ignore a failed occurs check
+                sig = {"family": "unify", "pred": "head", "defect": "head-write-mode-occurs-check-ignored"}
             else:
                 sig = {"family": "unify", "pred": pred, "flag": flag, "model": mo, "problem": prob[0],
                        "t1": c["t1"][:120], "t2": c["t2"][:120], "shape": shape_key(c)}
@@ -985,7 +1118,48 @@ def directed_cases():
         (f(A), g(A)), (f(A), f(A, A)), (f(A, A), f(B)), (('a', 'f'), f(A)), (('a', '[]'), ('lst', [A], None)),
         (('s', '.', [A, B]), ('lst', [('i', 1)], None)), (('lst', [('i', 1)], None), ('s', '.', [A, B])),
     ]
+    L += [p[1:] for p in write_mode_pairs()]
     return [(a, b, {}, "directed") for a, b in L]
+
+
+def write_mode_pairs():
+    """(name, t1, t2): the head t2 has a compound that is WRITTEN (t1 has a variable there) and that
+    contains this variable again, directly or through an alias; plus near misses with a finite
+    unifier.  Stored as corpus/C10/w_<name>.json (python3 -m vlib.props.C10 write-corpus) and run
+    as directed pairs too."""
+    V = lambda n: ('v', n)
+    s = lambda f, *a: ('s', f, list(a))
+    A, B, C = V("V0"), V("V1"), V("V2")
+    a = ('a', 'a')
+    return [
+        ("list_tail", s('h', B), s('h', ('lst', [a], B))),                      # h3 of finding C10-2
+        ("pstr_tail", s('h', B), s('h', ('str', "ab", B))),
+        ("struct_arg", B, s('f', B)),
+        ("struct_mid_arg", s('h', B), s('h', s('f', a, B, ('a', 'b')))),
+        ("nested_arg", s('h', B), s('h', s('f', a, s('g', B), ('a', 'b')))),
+        ("list_element", s('h', B), s('h', ('lst', [a, B], None))),
+        ("alias_then_write", s('f', C, C), s('f', B, ('lst', [a], B))),
+        ("write_then_alias", s('f', C, C), s('f', ('lst', [a], B), B)),
+        ("pstr_alias", s('f', C, C), s('f', B, ('str', "abc", B))),
+        ("two_steps", s('f', A, B), s('f', s('g', B), ('lst', [a], A))),
+        ("list_cell", ('lst', [B], B), ('lst', [('lst', [a], B)], B)),
+        ("near_miss_list", s('h', B), s('h', ('lst', [a], C))),
+        ("near_miss_pstr", s('f', C, A), s('f', B, ('str', "ab", B))),
+    ]
+
+
+def write_corpus():
+    """(re)creates corpus/C10/w_*.json from write_mode_pairs()."""
+    import json
+    import os
+    d = os.path.join(core.ROOT, "corpus", "C10")
+    os.makedirs(d, exist_ok=True)
+    for name, t1, t2 in write_mode_pairs():
+        cyc = not name.startswith("near_miss")
+        c = make_case("kw_%s" % name, t1, t2, {}, "corpus-write-mode", "cyclic" if cyc else False, True, "struct")
+        with open(os.path.join(d, "w_%s.json" % name), "w") as f:
+            json.dump({"case": c, "note": "head unification in write mode, finding C10-2"}, f, indent=1)
+            f.write("\n")
 
 
 def run(ctx):
@@ -995,19 +1169,25 @@ def run(ctx):
         cases = rep
     else:
         cases = diff.load_corpus("C10")
-        n = 3000 if tier == "quick" else 120000
+        n = 3000 if tier == "quick" else 70000
         pairs = directed_cases() + [gen_pair(rng) for _ in range(n)]
         pairs = [(sanitize(a, {k: sanitize(v, sh) for k, v in sh.items()}),
                   sanitize(b, {k: sanitize(v, sh) for k, v in sh.items()}),
                   {k: sanitize(v, sh) for k, v in sh.items()}, fam) for a, b, sh, fam in pairs]
         # first pass on the model only: which pairs leave finite terms / give unprintable results
-        heads = [i < 60 or rng.random() < 0.3 for i in range(len(pairs))]
-        pre = [make_case("c%d" % i, t1, t2, sh, fam, False, heads[i]) for i, (t1, t2, sh, fam) in enumerate(pairs)]
+        ndir = len(directed_cases())
+        heads = [i < ndir or rng.random() < 0.3 or pairs[i][3] == "tailshare" for i in range(len(pairs))]
+        # directed pairs: both shapes alternately (the write-mode pairs at the end: "struct");
+        # tailshare: mostly "struct"; others: either
+        hsh = ["struct" if (i < ndir and (i % 2 == 0 or i >= ndir - len(write_mode_pairs()))) else "list" if i < ndir
+               else ("struct" if rng.random() < (0.85 if pairs[i][3] == "tailshare" else 0.5) else "list")
+               for i in range(len(pairs))]
+        pre = [make_case("c%d" % i, t1, t2, sh, fam, False, heads[i], hsh[i]) for i, (t1, t2, sh, fam) in enumerate(pairs)]
         mres = core.run_model([l for c in pre for l in c["model"]])
-        for c0, (t1, t2, sh, fam), hd in zip(pre, pairs, heads):
+        for c0, (t1, t2, sh, fam), hd, hs in zip(pre, pairs, heads, hsh):
             mv = mres.get(c0["id"], "")
             hide = "all" if unprintable(mv) else ("cyclic" if mv == "cyclic" else False)
-            cases.append(make_case(c0["id"], t1, t2, sh, fam, hide, hd) if hide else c0)
+            cases.append(make_case(c0["id"], t1, t2, sh, fam, hide, hd, hs) if hide else c0)
     impl, model = diff.run_cases(cases)
     # a loaded machine can make the 10 s watchdog fire: a `timeout` (or a missing answer) is
     # inconclusive; such cases are re-run serially with a long watchdog before they are judged
@@ -1046,11 +1226,11 @@ def run(ctx):
             agree += 1
         for kind, sig, detail in probs:
             findings.append(core.Finding(kind, sig, detail, {k: c.get(k) for k in (
-                "id", "family", "t1", "t2", "extra", "prolog", "hide", "configs", "impl", "model")}))
+                "id", "family", "t1", "t2", "extra", "prolog", "hide", "hshape", "configs", "impl", "model")}))
     return {
         "evaluations": sum(len(c.get("configs", CONFIGS)) for c in cases),
         "distinct_nontrivial": len(distinct),
-        "rule": "term pairs over <=6 shared variables, atoms, small/boundary/big integers (literal and run-time computed), floats, rationals, strings / partial strings / char lists / partial lists in several spellings, compounds, shared sub-structures, long lists and deep nesting; partner term derived by mutation (mostly unifiable, some clashes, some cyclic); 7 configurations (=/2 x 3 flags, unify_with_occurs_check/2, \\=/2 x 3 flags) per pair, run in one query; non-trivial = at least one binding, a clash or a cyclic binding; distinct by the pair of terms",
+        "rule": "term pairs over <=6 shared variables, atoms, small/boundary/big integers (literal and run-time computed), floats, rationals, strings / partial strings / char lists / partial lists in several spellings, compounds, shared sub-structures, long lists and deep nesting; partner term derived by mutation (mostly unifiable, some clashes, some cyclic); family tailshare: the head's compound holds the variable it is unified with (write mode of the compiled head, cyclic) and near misses; 7 configurations (=/2 x 3 flags, unify_with_occurs_check/2, \\=/2 x 3 flags) per pair, run in one query, plus 3 head configurations (call of a clause whose head carries t2, under each flag) for the stored corpus, the directed pairs, family tailshare and 30% of the rest; non-trivial = at least one binding, a clash or a cyclic binding; distinct by the pair of terms",
         "samples": [c["prolog"] for c in cases[:2]] + [c["prolog"] for c in cases[-4:]],
         "traces_validated_against_impl": agree,
         "disagreements_checked": len(cases) - agree,
@@ -1063,3 +1243,9 @@ def run(ctx):
         "exhaustive": False,
         "findings": findings,
     }
+
+
+if __name__ == "__main__":
+    import sys
+    if sys.argv[1:] == ["write-corpus"]:
+        write_corpus()
